@@ -240,7 +240,7 @@ def run(R):
     # ---- codec
     G = Gen(codec, rng, known)
     G.untouchable = {(n, f) for n, fs in lib_auto.untouchables.items() for f in fs}
-    per = 14 if quick else 500
+    per = 30 if quick else 500
     mine = [n for i, n in enumerate(supported) if i % R.nshards == R.shard]
     for name in mine:
         ctor = ctors[name]
